@@ -136,6 +136,95 @@ PROPS = {
         ],
         "assumptions": [],
     },
+    "C08": {
+        "required_theorems": ["c08_sync_chunk_independent", "c08_sync_prefix", "c08_sync_window", "c08_skip", "c08_delay",
+                              "c08_rtlsdr", "c08_no_panic_hand"],
+        "runs": [
+            {"sub": "blocks", "quick": ["--seed", "{seed}", "--set", "modelled", "--cases", 1200, "--steps", 40],
+             "thorough": ["--seed", "{seed}", "--set", "modelled", "--cases", 60000, "--steps", 80]},
+            {"sub": "blocks", "quick": ["--seed", "{seed}", "--mode", "self", "--set", "every", "--cases", 1400, "--steps", 40,
+                                        "--probes", 1],
+             "thorough": ["--seed", "{seed}", "--mode", "self", "--set", "every", "--cases", 70000, "--steps", 80,
+                          "--probes", 1],
+             "timeout": 20000},
+        ],
+        "rule": "every library block (46 catalogue entries incl. all element types used) x random parameters x random input "
+                "(seeded; boundary alphabets: all bytes, float specials, small integers for filters) x adversarial drip-feed "
+                "schedules (feed 1..k, drain 0..j, output left full, bursts larger than the output, inputs pre-advanced to "
+                "random wrap offsets, one-page streams): (a) modelled blocks: every call's verdict/consumed/produced and the "
+                "cumulative output compared with the Lean model; (b) all blocks: the drip-fed run and a greedy run of the real "
+                "block must deliver bit-identical samples/packets and never panic. distinct = distinct request.",
+        "trusted_base": GLOBAL_TB + [
+            "streams are FIFOs with capacity (C01/C02); read window = everything readable, write window = all free space",
+            "float sample functions are evaluated with Lean's Float32 (IEEE binary32, same as Rust f32 for + - * and comparisons); "
+            "NaN results are compared as one canonical NaN; no theorem depends on float values",
+            "blocks without a Lean model are checked on the real code only (self-checking lines); listed in coverage.stats",
+        ],
+        "assumptions": ["known finding int-overflow-panic: integer AddConst/Add/MultiplyConst panic on overflow (probe line)"],
+    },
+    "C09": {
+        "required_theorems": ["c09_sync_within_windows", "c09_sync_wait_input_truthful", "c09_sync_wait_output_truthful",
+                              "c09_sync_progress", "c09_sync_retires", "c09_skip", "c09_rtlsdr"],
+        "runs": [
+            {"sub": "blocks", "quick": ["--seed", "{seed}", "--set", "modelled", "--cases", 800, "--steps", 40, "--tag-heavy", 1],
+             "thorough": ["--seed", "{seed}", "--set", "modelled", "--cases", 40000, "--steps", 80, "--tag-heavy", 1]},
+            {"sub": "blocks", "quick": ["--seed", "{seed}", "--mode", "self", "--set", "every", "--cases", 1400, "--steps", 40],
+             "thorough": ["--seed", "{seed}", "--mode", "self", "--set", "every", "--cases", 70000, "--steps", 80],
+             "timeout": 20000},
+        ],
+        "rule": "as C08; on every real work() call the acceptor checks: consumed/produced within the windows, a "
+                "WaitForStream names one of the block's streams (stream identity hook) and that stream currently lacks the "
+                "amount asked, no more than 3 consecutive 'Again' without movement, and after the inputs ended and drained the "
+                "last verdict is EOF / a wait on an ended input / eof() is true. Modelled blocks additionally: verdict equals "
+                "the model's on every call.",
+        "trusted_base": GLOBAL_TB + [
+            "streams are FIFOs with capacity (C01/C02); read window = everything readable, write window = all free space",
+            "float sample functions are evaluated with Lean's Float32 (IEEE binary32, same as Rust f32 for + - * and comparisons); "
+            "NaN results are compared as one canonical NaN; no theorem depends on float values",
+            "blocks without a Lean model are checked on the real code only (self-checking lines); listed in coverage.stats",
+        ],
+        "assumptions": [],
+    },
+    "C10": {
+        "required_theorems": ["c10_samplewise", "c10_nrzi", "c10_nrzi_xor_tee_delay", "c10_skip", "c10_delay", "c10_rtlsdr"],
+        "runs": [
+            {"sub": "blocks", "quick": ["--seed", "{seed}", "--set", "modelled", "--cases", 1600, "--steps", 30],
+             "thorough": ["--seed", "{seed}", "--set", "modelled", "--cases", 80000, "--steps", 60]},
+        ],
+        "rule": "modelled blocks (all sample-wise blocks, slicer, NRZI, descrambler, both correlators, burst tagger, skip, "
+                "delay, resampler, RTL-SDR decoder, arity blocks) x parameter grids (delay/skip 0..3000, interp/deci 1..12 incl. "
+                "non-coprime, code lengths 0..16, LFSR masks) x boundary alphabets, one-shot and chunked; cumulative output "
+                "(hash of all samples, exact count) compared with the Lean model. distinct = distinct request.",
+        "trusted_base": GLOBAL_TB + [
+            "streams are FIFOs with capacity (C01/C02); read window = everything readable, write window = all free space",
+            "float sample functions are evaluated with Lean's Float32 (IEEE binary32, same as Rust f32 for + - * and comparisons); "
+            "NaN results are compared as one canonical NaN; no theorem depends on float values",
+            "blocks without a Lean model are checked on the real code only (self-checking lines); listed in coverage.stats",
+        ],
+        "assumptions": ["sources, vector-to-stream, stream-to-PDU, text formatter and FFT framing are covered by C16/C08 "
+                        "self-checks, not yet by a Lean spec"],
+    },
+    "C12": {
+        "required_theorems": ["c12_sync_same_index", "c12_sync_any_chunking", "c12_contract_sync", "c12_skip", "c12_delay"],
+        "runs": [
+            {"sub": "blocks", "quick": ["--seed", "{seed}", "--set", "modelled", "--cases", 1200, "--steps", 40, "--tag-heavy", 1],
+             "thorough": ["--seed", "{seed}", "--set", "modelled", "--cases", 60000, "--steps", 80, "--tag-heavy", 1]},
+            {"sub": "blocks", "quick": ["--seed", "{seed}", "--mode", "self", "--set", "every", "--cases", 1400, "--steps", 40,
+                                        "--tag-heavy", 1],
+             "thorough": ["--seed", "{seed}", "--mode", "self", "--set", "every", "--cases", 70000, "--steps", 80,
+                          "--tag-heavy", 1], "timeout": 20000},
+        ],
+        "rule": "as C08 with 1..12 tags per input clustered on the first/last samples and at chunk boundaries; tags collected with "
+                "absolute output positions; modelled blocks compared with the Lean model, every block: drip-fed vs greedy run "
+                "must deliver the identical tag multiset. distinct = distinct request.",
+        "trusted_base": GLOBAL_TB + [
+            "streams are FIFOs with capacity (C01/C02); read window = everything readable, write window = all free space",
+            "float sample functions are evaluated with Lean's Float32 (IEEE binary32, same as Rust f32 for + - * and comparisons); "
+            "NaN results are compared as one canonical NaN; no theorem depends on float values",
+            "blocks without a Lean model are checked on the real code only (self-checking lines); listed in coverage.stats",
+        ],
+        "assumptions": [],
+    },
 }
 
 MANIFEST_TEXT = {
@@ -220,6 +309,49 @@ MANIFEST_TEXT = {
         "note": "The macro bug found here (3+ inputs did not compile: nested zip tuples) was repaired by a fix: commit. The "
                 "constructor wiring has no model-level content and is checked by correspondence only.",
         "technique": "Lean 4 proof about the generated work() for all arities + drip-feed correspondence on compiled blocks",
+    },
+    "C08": {
+        "text": "Lean 4 theorems: (1) for the WHOLE sync/sync_tag family (any arity, any stateful per-sample function) every "
+                "chunking of the input yields the one-shot result, state and tags (driveG_eq_oneShot, by induction over the "
+                "list of chunk sizes) and the generated work() on windows equals the loop on the histories; (2) Skip, Delay and "
+                "RtlSdrDecode: for EVERY schedule of (readable, free) pairs the cumulative output is the closed form, no panic. "
+                "All other blocks: the real block is run drip-fed and greedy and must deliver bit-identical output (model-free), "
+                "modelled blocks are also compared call by call with the Lean model.",
+        "design_ref": "DESIGN.md section 2, C08",
+        "note": "Proof covers the blocks named in RR/Props/C08.lean; RationalResampler is modelled and correspondence-tied, its "
+                "closed form not yet proved; FIR/FFT/Hilbert/SymbolSync/ZeroCrossing/deframers/converters are checked on the real "
+                "code only. Many chunking defects were repaired by fix: commits (see KNOWN_FINDINGS.txt).",
+        "technique": "Lean 4 proof (induction over arbitrary schedules) + drip-feed correspondence + real-vs-real chunking differential",
+    },
+    "C09": {
+        "text": "Lean 4 theorems about work() on an arbitrary view for the sync family (any block built with the macro), Skip and "
+                "RtlSdrDecode: consumption/commit within the windows; a wait names a stream that really lacks the amount; when no "
+                "stream lacks anything the call progresses; Again only with progress; ended+drained inputs are reported. For every "
+                "other block the same acceptor runs on real traces with the stream-identity hook.",
+        "design_ref": "DESIGN.md section 2, C09",
+        "note": "Windows are released before return by construction in the models; on the real code a leaked window shows up as a "
+                "refused acquisition in the next call. Theorems for the blocks named; acceptor-only for the rest.",
+        "technique": "Lean 4 proof per modelled block + truthful-verdict acceptor on real drip-feed traces",
+    },
+    "C10": {
+        "text": "Lean 4 theorems that the mirrored work() functions compute independent documentation-level specs with exact "
+                "counts: all sample-wise sync blocks generically (row p = f(inputs at p)), NRZI (= 1 xor a xor prev, and = the "
+                "Tee/Delay/Xor/XorConst composition of the doc comment), Skip (= drop k), Delay (= k zeros ++ x), RtlSdrDecode "
+                "(= pairwise conversion), for every chunking. Other exactly-specified blocks are tied to executable Lean models "
+                "by correspondence on boundary alphabets and parameter grids.",
+        "design_ref": "DESIGN.md section 2, C10",
+        "note": "Float sample functions are single expressions evaluated by Lean Float32 in the driver (trusted, not proved).",
+        "technique": "Lean 4 proof model = independent spec + differential correspondence on boundary inputs",
+    },
+    "C12": {
+        "text": "Lean 4 theorems: every plain sync block forwards each tag of its first input exactly once on the output position "
+                "of its sample, for every chunking; every generated work() hands produce(n, tags) only tags with pos < n (so "
+                "unprocessed samples keep their tags in the stream); Skip and Delay forward exactly the tags of the copied "
+                "samples (Delay shifted by the zeros of that call). Other tag-carrying blocks: identical tag multisets between a "
+                "drip-fed and a greedy real run, plus model comparison for correlator/burst tagger.",
+        "design_ref": "DESIGN.md section 2, C12",
+        "note": "The unfiltered-tags defects in Skip/FirFilter/Hilbert/Delay/FftFilter/Cma were repaired by fix: commits.",
+        "technique": "Lean 4 proof for the sync family + tag-multiset differential on real blocks",
     },
 }
 
